@@ -68,6 +68,11 @@ func Run(c *common.Ctx) error {
 			h.Close()
 		}
 	}
+	if c.Thorough() { // 1 GiB of (sparse) database file
+		if err := lockPageWAL(c); err != nil {
+			return err
+		}
+	}
 	nHist := c.Pick(18, 160)
 	for i := 0; i < nHist; i++ {
 		cfg := cfgs[i%len(cfgs)]
